@@ -525,8 +525,6 @@ def runs(draw, max_iter):
                 lo[0] += sh
                 hi[0] += sh
             boxes.append([lo, hi])
-    srot = [0.0, 0.0, 0.0] if rot == "zero" or draw(st.booleans()) else [rb * draw(G.floats(-1, 1)) for _ in range(3)]
-    grot = [0.0, 0.0, 0.0] if rot == "zero" or draw(st.booleans()) else [rb * draw(G.floats(-1, 1)) for _ in range(3)]
     goal = pos_in(1.0)
     if terrain is not None:
         goal[2] = bounds[2][0] + (bounds[2][1] - bounds[2][0]) * draw(G.floats(0.0, 1.0))
@@ -538,17 +536,24 @@ def runs(draw, max_iter):
         coll_cb = draw(st.sampled_from(["default", "default", "own_margin"]))
     else:
         gen_cb = dist_cb = coll_cb = "default"
+    # a position-only generator plans in 3-D: the start carries no rotation either (otherwise, under a metric that
+    # includes rotation, no sample may ever be within range of the root and the library's sampling loop cannot end)
+    flat = rot == "zero" or gen_cb == "position_only"
+    srot = [0.0, 0.0, 0.0] if flat or draw(st.booleans()) else [rb * draw(G.floats(-1, 1)) for _ in range(3)]
+    grot = [0.0, 0.0, 0.0] if flat or draw(st.booleans()) else [rb * draw(G.floats(-1, 1)) for _ in range(3)]
     # connection distances in units of the typical distance between samples under the supplied metric
-    typical = b
-    if dist_cb == "default" and dmode == 1:
-        typical = b + rb
-    elif dist_cb == "weighted6":
-        typical = b + 0.3 * rb
+    if dist_cb == "weighted6":
+        typical = b + (0.0 if flat else 0.3 * rb)
+    elif dmode == 1:
+        typical = b + (0.0 if flat else min(rb, math.pi))       # arc distance: the rotation part is at most pi
+    else:
+        typical = b
     if dist_cb == "scaled":
         typical *= 2.5
     iterations = draw(st.one_of(st.integers(20, max_iter), st.integers(20, max_iter), st.integers(max(20, max_iter // 2), max_iter),
                                 st.integers(1, 19), st.sampled_from([1, 2, 3])))
-    dmax = draw(st.one_of(st.just(100.0), G.floats(0.35, 0.8).map(lambda f: f * typical),
+    fl = 0.35 if typical <= 2.5 * b else 0.5        # metrics with a rotation part: keep the first acceptances likely
+    dmax = draw(st.one_of(st.just(100.0), G.floats(fl, 0.8).map(lambda f: f * typical),
                           G.floats(0.8, 2.5).map(lambda f: f * typical)))
     # minimum distance: the rejection loop cannot terminate once the region is packed with nodes that far apart
     # (random sequential packing jams at ~0.73 (2b/dmin)^3 nodes in the worst case, a position-only generator);
